@@ -332,6 +332,24 @@ Definition on_exception {A : Type} (e : env) (x : res A) (dflt : A) : res A :=
    start-up that would consult it is Proofs.startup_tolerant.) *)
 Definition startup_in (e : env) (r : robot) : res started := startup r.
 
+(* ---- default values of __init__ parameters ------------------------------ *)
+(* `def __init__(self, encoder: Encoder = None, gain: float = 1.0)`: what
+   inspect.signature(cls.__init__) would show as the parameters' defaults.
+   _create_component reads typing.get_type_hints(ctyp.__init__) only -- never
+   the signature: EVERY annotated parameter is an injection request, looked up
+   under its name / "<component>_<name>" and type-checked; a default is never
+   an alternative to the robot's object and never a way around a failure.
+   So defaults are carried along here only to say that they are not an input. *)
+Definition init_defaults := list (name * value).            (* parameter -> its default *)
+
+Definition create_component_dflt (dflt : init_defaults) (m : name) (d : compdef) (inj : imap)
+  : res (list (name * obj)) := create_component m d inj.
+
+(* start-up of a robot whose component classes declare the defaults [dd]
+   (component name -> defaults of its class's __init__) in the environment e *)
+Definition startup_dflt (dd : list (name * init_defaults)) (e : env) (r : robot) : res started :=
+  startup_in e r.
+
 (* The order in which things happen during a successful startup. *)
 Inductive event :=
 | EvCtor (c : name) (kwargs : list (name * obj))    (* ctyp( **kwargs) *)
@@ -550,6 +568,26 @@ Fixpoint bad_in (i : nat) (l : list (list (cls * cls) * env * robot * impl_resul
   | [] => []
   | (pairs, e, r, ir) :: rest =>
     if check_case_in pairs e r ir then bad_in (S i) rest else i :: bad_in (S i) rest
+  end.
+
+(* ... and with the defaults the component classes of the implementation declared *)
+Definition check_case_dflt (pairs : list (cls * cls)) (dd : list (name * init_defaults)) (e : env)
+  (r : robot) (ir : impl_result) : bool :=
+  match startup_dflt (sub_of pairs) dd e r, ir_outcome ir with
+  | Ok s, 0 => obs_eqb (observe r s) (ir_obs ir)
+  | Err EInject, 1 => true
+  | Err EType, 2 => true
+  | Err EInject, 2 => negb (ir_strict ir)
+  | Err EType, 1 => negb (ir_strict ir)
+  | _, _ => false
+  end.
+
+Fixpoint bad_dflt (i : nat)
+  (l : list (list (cls * cls) * list (name * init_defaults) * env * robot * impl_result)) : list nat :=
+  match l with
+  | [] => []
+  | (pairs, dd, e, r, ir) :: rest =>
+    if check_case_dflt pairs dd e r ir then bad_dflt (S i) rest else i :: bad_dflt (S i) rest
   end.
 
 Fixpoint bad (i : nat) (l : list (list (cls * cls) * robot * impl_result)) : list nat :=
